@@ -39,6 +39,18 @@ def make_description(shape, slo_pat, release, variance, strat_variant):
         elif strat_variant == 1:
             ss = [W.strat(r1, CPU=1), W.strat(r2, GPU=1, CPU=1)]
             ss[1]["batch_size"] = 2
+        elif strat_variant == 3:
+            # optional keys left out of *later* entries of a menu: each entry falls
+            # back to the documented default (batch_size 1) on its own
+            first = W.strat(r1, GPU=1)
+            first["batch_size"] = 3
+            second = W.strat(r2, CPU=1)
+            del second["batch_size"]
+            third = W.strat(r1 + r2, CPU=2)
+            third["batch_size"] = 2
+            fourth = W.strat(r2 + 1, CPU=1, GPU=1)
+            del fourth["batch_size"]
+            ss = [first, second, third, fourth]
         else:
             ss = [W.strat(r1, GPU__g0=1), W.strat(r2, CPU=2)]
         p = {"name": "p_" + n, "execution_strategies": ss}
@@ -415,11 +427,13 @@ def job(item, tier, seed):
     distinct = []
     last = None
     for slo, var, sv, fs, fmt in itertools.product(
-            SLO_PATTERNS, range(len(VARIANCES)), (0, 1, 2), range(len(FLAGSETS)),
+            SLO_PATTERNS, range(len(VARIANCES)), (0, 1, 2, 3), range(len(FLAGSETS)),
             ("json", "yaml")):
         if tier == "quick":
             # the rendering and the strategy menu are orthogonal to the rest: pair them
-            if (fmt == "yaml") != (sv == 1):
+            if (fmt == "yaml") != (sv in (1, 3)):
+                continue
+            if sv == 3 and (slo != "none" or fs not in (0, 1)):
                 continue
             if fs >= 3 and var not in (0, 2):
                 continue
